@@ -7,6 +7,7 @@ at callee exits.  Every potential panic/overflow/out-of-bounds edge becomes an *
 that must be discharged by the facts of the path reaching it."""
 import sys
 
+import math
 from ..lin import Lin
 from .state import State, SymTab, Infeasible, ty_range, NEG, ISIZE_MAX
 from .values import *
@@ -229,7 +230,7 @@ class Interp:
         key = None
         if defn is not None and defn[0] in PURE_DEFS:
             try:
-                key = (defn, w, sg, l, h)
+                key = (defn, l, h)
                 hash(key)
             except TypeError:
                 key = None
@@ -741,11 +742,31 @@ class Interp:
             if al is not None and al >= 0:
                 if ah is not None and ah < cb:
                     return VInt(a, w, sg)
+                if (cb & (cb - 1)) == 0:
+                    return self.fresh_int(st, w, sg, "and", ("and", a, cb - 1), 0, cb - 1)
                 return self.fresh_int(st, w, sg, "rem", ("rem", a, cb), 0, cb - 1)
             return self.fresh_int(st, w, sg, "rem", ("rem", a, cb), -(cb - 1), cb - 1)
         if op == "Div" and cb is not None and cb > 0 and al is not None and al >= 0:
+            if (cb & (cb - 1)) == 0 and cb > 1:
+                k_ = cb.bit_length() - 1
+                return self.fresh_int(st, w, sg, "shr", ("shr", a, k_), al >> k_, None if ah is None else ah >> k_)
             return self.fresh_int(st, w, sg, "div", ("div", a, cb), al // cb, None if ah is None else ah // cb)
         if op == "BitAnd":
+            for x, cx in ((a, cb), (b, ca)):
+                # mask of the bits k..K-1 of a value below 2^K: x & mask = 2^k * (x >> k), with x = 2^k * (x >> k) + (x & (2^k - 1))
+                if cx is not None and cx > 0:
+                    k = (cx & -cx).bit_length() - 1
+                    top = cx + (1 << k)
+                    xl, xh = st.interval(x)
+                    if k > 0 and (top & (top - 1)) == 0 and xl is not None and xl >= 0 and xh is not None and xh < top:
+                        q = self.fresh_int(st, w, sg, "shr", ("shr", x, k), xl >> k, xh >> k)
+                        r = self.fresh_int(st, w, sg, "and", ("and", x, (1 << k) - 1), 0, (1 << k) - 1)
+                        d = x - q.lin.scale(1 << k) - r.lin
+                        try:
+                            st.assume_eq0(d)
+                        except Infeasible:
+                            pass
+                        return VInt(q.lin.scale(1 << k), w, sg)
             for x, cx in ((a, cb), (b, ca)):
                 if cx is not None and cx >= 0:
                     xl, xh = st.interval(x)
@@ -763,6 +784,18 @@ class Interp:
             return self.fresh_int(st, w, sg, "shl", ("shl_trunc", a, cb))
         if op in ("BitOr", "BitXor") and al is not None and al >= 0 and ah is not None:
             bl, bh = st.interval(b)
+            # disjoint bit ranges: x (a multiple of 2^k) | y (below 2^k) = x + y
+            if bl is not None and bl >= 0 and bh is not None:
+                for x, y, yh in ((a, b, bh), (b, a, ah)):
+                    g = x.c
+                    for _s, c_ in x.t:
+                        g = math.gcd(g, c_)
+                    if g and x.t:
+                        p2 = g & -g
+                        if yh < p2:
+                            r = x + y
+                            if self.fits(st, r, w, sg):
+                                return VInt(r, w, sg)
             if bl is not None and bl >= 0 and bh is not None:
                 m = max(ah, bh)
                 top = (1 << m.bit_length()) - 1
